@@ -72,7 +72,8 @@ def r1_same_origin(ctx):
     ctx.check(okq, 'C16.R1', f'{func_label(pr)}|signed-query-is-sent-query', site, 'the canonical query that is signed is the same string that is appended to the URL (and empty when there is no query)', 'the signed query string is not the one appended to the URL')
     # host
     host_attr = ('attr', ('self', ev.clskey(s3)), 'host')
-    ch = env.vars.get('canonical_headers')
+    che = [e for e in ev.events if e.callee[0] == 'func' and e.callee[1].endswith('_make_canonical_headers')]
+    ch = che[0].args[0] if che and che[0].args else None
     d = dict((k[1], v) for k, v in ch[1]) if ch is not None and ch[0] == 'dict' else {}
     url_root = preset.get('self.url')
     host_init = preset.get('self.host')
@@ -183,9 +184,9 @@ def r2_payload_sites(ctx):
         if dotted(c.func) == 'self._make_request':
             content = kwarg(c, 'content')
             hd = kwarg(c, 'headers')
-            okc = isinstance(content, ast.Name) and content.id == 'data'
+            okc = isinstance(content, ast.Name) and content.id == po.node.args.args[2].arg
             cl = [v for k, v in zip(hd.keys, hd.values) if isinstance(k, ast.Constant) and k.value == 'content-length'] if isinstance(hd, ast.Dict) else []
-            okl = bool(cl) and src(cl[0]) == 'str(len(data))'
+            okl = bool(cl) and isinstance(content, ast.Name) and src(cl[0]) == f'str(len({content.id}))'
             ctx.check(okc and okl, 'C16.R2', f'{func_label(po)}|put-object-content', loc(po, c), '_put_object sends content=data with content-length=len(data)', '_put_object: content / content-length do not describe the hashed data')
     us = s3.methods.get('upload_stream')
     ev = Evaluator(corpus, depth=1)
@@ -209,7 +210,12 @@ def r2_payload_sites(ctx):
     gd, gs = mod.functions.get('_get_data_hexdigest'), mod.functions.get('_get_stream_hexdigest')
     ok = gd is not None and src(gd.node.body[-1]) == 'return hashlib.sha256(data).hexdigest()'
     ctx.check(ok, 'C16.R2', f'{mod.rel}|_get_data_hexdigest', loc(gd, gd.node) if gd else mod.rel, '_get_data_hexdigest = sha256(data).hexdigest()', '_get_data_hexdigest changed')
-    oks = gs is not None and any(isinstance(c.func, ast.Attribute) and c.func.attr == 'update' for c in calls_in(gs.node)) and 'sha256' in src(gs.node.body[0]) and src(gs.node.body[-1]) == 'return hasher.hexdigest()'
+    oks = False
+    if gs is not None:
+        hn = gs.node.body[0].targets[0].id if isinstance(gs.node.body[0], ast.Assign) and isinstance(gs.node.body[0].targets[0], ast.Name) else None
+        upd = [c for c in calls_in(gs.node) if isinstance(c.func, ast.Attribute) and c.func.attr == 'update' and isinstance(c.func.value, ast.Name) and c.func.value.id == hn]
+        last = gs.node.body[-1]
+        oks = hn is not None and 'hashlib.sha256()' in src(gs.node.body[0]) and bool(upd) and isinstance(last, ast.Return) and src(last.value) == f'{hn}.hexdigest()'
     ctx.check(oks, 'C16.R2', f'{mod.rel}|_get_stream_hexdigest', loc(gs, gs.node) if gs else mod.rel, '_get_stream_hexdigest = sha256 over all chunks of the stream', '_get_stream_hexdigest changed')
 
 
@@ -260,18 +266,50 @@ def r3_structure(ctx):
     want = dig(hm(dig(hm(dig(hm(dig(hm(k0, enc('date'))), enc('region'))), enc('service'))), ('const', b'aws4_request')))
     ctx.check(r == want, 'C16.R3', f'{func_label(fn)}|signing-key-chain', loc(fn, fn.node), "signing key = HMAC(HMAC(HMAC(HMAC('AWS4'+key, date), region), service), 'aws4_request')", f'signing key chain deviates: {show(r, limit=300)}')
     fn = f('_make_canonical_headers')
-    ok = any(isinstance(n, ast.JoinedStr) and src(n) == "f'{name}:{value}'" for n in ast.walk(fn.node)) and any(isinstance(n, ast.AugAssign) and isinstance(n.value, ast.Constant) and n.value.value == '\n' for n in ast.walk(fn.node))
+    ok = False
+    for g in ast.walk(fn.node):
+        if isinstance(g, (ast.GeneratorExp, ast.ListComp)) and isinstance(g.elt, ast.JoinedStr) and len(g.generators) == 1:
+            tgt = g.generators[0].target
+            it = g.generators[0].iter
+            v = g.elt.values
+            if isinstance(tgt, ast.Tuple) and len(tgt.elts) == 2 and all(isinstance(e, ast.Name) for e in tgt.elts) and isinstance(it, ast.Call) and isinstance(it.func, ast.Attribute) and it.func.attr == 'items' and len(v) == 3:
+                a_, c_, b_ = v
+                ok = isinstance(a_, ast.FormattedValue) and isinstance(a_.value, ast.Name) and a_.value.id == tgt.elts[0].id and isinstance(c_, ast.Constant) and c_.value == ':' and isinstance(b_, ast.FormattedValue) and isinstance(b_.value, ast.Name) and b_.value.id == tgt.elts[1].id
+    ok = ok and any(isinstance(n, ast.AugAssign) and isinstance(n.value, ast.Constant) and n.value.value == '\n' for n in ast.walk(fn.node))
     ctx.check(ok, 'C16.R3', f'{func_label(fn)}|canonical-headers-format', loc(fn, fn.node), "canonical headers = 'name:value' lines, each terminated by \\n", 'canonical headers format changed')
     s3 = corpus.cls('s3c', 'S3Compatible')
     pr = s3.methods['_prepare_request']
     auth = [n for n in ast.walk(pr.node) if isinstance(n, ast.JoinedStr) and 'Credential=' in src(n)]
-    ok = bool(auth) and src(auth[0]).replace("' f'", '') .count('AWS4-HMAC-SHA256 Credential={self.key_id}/{credential_scope}, SignedHeaders={signed_headers}, Signature={signature}') == 1
+    ok = False
+    if auth:
+        consts = [v.value for v in auth[0].values if isinstance(v, ast.Constant)]
+        holes = [v.value for v in auth[0].values if isinstance(v, ast.FormattedValue)]
+        def _def(nm):
+            ds = [a.value for a in walk_local(pr.node) if isinstance(a, ast.Assign) and any(isinstance(t, ast.Name) and t.id == nm for t in a.targets)]
+            return ds[0] if len(ds) == 1 else None
+        if consts == ['AWS4-HMAC-SHA256 Credential=', '/', ', SignedHeaders=', ', Signature='] and len(holes) == 4:
+            k, sc, sh, sg = holes
+            d_sc = _def(sc.id) if isinstance(sc, ast.Name) else None
+            d_sh = _def(sh.id) if isinstance(sh, ast.Name) else None
+            d_sg = _def(sg.id) if isinstance(sg, ast.Name) else None
+            ok = (
+                dotted(k) == 'self.key_id'
+                and isinstance(d_sc, ast.Call) and (dotted(d_sc.func) or '').endswith('_make_credential_scope')
+                and isinstance(d_sh, ast.Call) and isinstance(d_sh.func, ast.Attribute) and d_sh.func.attr == 'join'
+                and isinstance(d_sg, ast.Call) and isinstance(d_sg.func, ast.Attribute) and d_sg.func.attr == 'hex'
+            )
     ctx.check(ok, 'C16.R3', f'{func_label(pr)}|authorization-format', loc(pr, auth[0]) if auth else loc(pr, pr.node), 'Authorization = AWS4-HMAC-SHA256 Credential=<id>/<scope>, SignedHeaders=<list>, Signature=<hex>', 'authorization header format changed')
     svc = [kwarg(c, 'service') for c in calls_in(pr.node) if (dotted(c.func) or '').endswith(('_make_credential_scope', '_make_signature_key'))]
     reg = [kwarg(c, 'region') for c in calls_in(pr.node) if (dotted(c.func) or '').endswith(('_make_credential_scope', '_make_signature_key'))]
     ctx.check(len(svc) == 2 and all(isinstance(s, ast.Constant) and s.value == 's3' for s in svc) and all(dotted(r_) == 'self.region' for r_ in reg), 'C16.R3', f'{func_label(pr)}|scope-and-key-same-region-service', loc(pr, pr.node), "scope and signing key use the same region (self.region) and service 's3'", 'scope and signing key disagree on region/service')
-    fmt = [src(n) for n in ast.walk(pr.node) if isinstance(n, ast.JoinedStr) and 'now:' in src(n)]
-    ctx.check(sorted(fmt) == sorted(["f'{now:%Y%m%dT%H%M%S}Z'", "f'{now:%Y%m%d}'"]), 'C16.R3', f'{func_label(pr)}|date-formats', loc(pr, pr.node), 'x-amz-date = YYYYMMDDTHHMMSSZ, scope date = YYYYMMDD (UTC)', f'date formats changed: {fmt}')
+    fmt = []
+    for n in ast.walk(pr.node):
+        if isinstance(n, ast.JoinedStr):
+            specs = [ast.unparse(v.format_spec) for v in n.values if isinstance(v, ast.FormattedValue) and v.format_spec is not None]
+            tails = [v.value for v in n.values if isinstance(v, ast.Constant)]
+            if specs and '%Y' in specs[0]:
+                fmt.append(specs[0].strip("f'") + ''.join(tails))
+    ctx.check(sorted(fmt) == sorted(['%Y%m%dT%H%M%SZ', '%Y%m%d']), 'C16.R3', f'{func_label(pr)}|date-formats', loc(pr, pr.node), 'x-amz-date = YYYYMMDDTHHMMSSZ, scope date = YYYYMMDD (UTC)', f'date formats changed: {fmt}')
     utc = any(dotted(c.func) in ('datetime.utcnow',) or (dotted(c.func) == 'datetime.now' and c.args) for c in calls_in(pr.node))
     ctx.check(utc, 'C16.R3', f'{func_label(pr)}|utc-clock', loc(pr, pr.node), 'the request time is read in UTC', 'the request time is not read in UTC')
 
